@@ -145,10 +145,10 @@ End Tpl.
 
 (* the control instructions are pure signals that record the requested depth *)
 Lemma break_signal flits lookup budget inc d c w :
-  write_node flits lookup budget inc (NBreak d) c w = Out (set_brkD d (set_cerr None c)) w (Some EBreak).
+  write_node flits lookup budget inc (NBreak d) c w = Out (set_brkD (Z.max d (brkD c)) (set_cerr None c)) w (Some EBreak).
 Proof. reflexivity. Qed.
 Lemma lazybreak_signal flits lookup budget inc d c w :
-  write_node flits lookup budget inc (NLBreak d) c w = Out (set_brkD d (set_cerr None c)) w (Some ELBreak).
+  write_node flits lookup budget inc (NLBreak d) c w = Out (set_brkD (Z.max d (brkD c)) (set_cerr None c)) w (Some ELBreak).
 Proof. reflexivity. Qed.
 Lemma continue_signal flits lookup budget inc c w :
   write_node flits lookup budget inc NContinue c w = Out (set_cerr None c) w (Some ECont).
